@@ -6,7 +6,7 @@ use num_traits::Zero;
 use thiserror::Error;
 
 use crate::{
-    arithmetic::{Exponent, Power, Rational, pretty_exponent},
+    arithmetic::{Exponent, Power, Rational, pretty_exponent_parseable},
     pretty_print::PrettyPrint,
     product::{Canonicalize, Product},
     suggestion,
@@ -30,7 +30,7 @@ pub struct BaseRepresentationFactor(pub BaseEntry, pub Exponent);
 
 impl Display for BaseRepresentationFactor {
     fn fmt(&self, f: &mut std::fmt::Formatter<'_>) -> std::fmt::Result {
-        write!(f, "{}{}", self.0, pretty_exponent(&self.1))
+        write!(f, "{}{}", self.0, pretty_exponent_parseable(&self.1))
     }
 }
 
